@@ -112,7 +112,10 @@ func VerifFindingWriteThroughSizeMismatch() {
 	size := uint64(verif.Len("reported_size", 0, 3))
 	// (when the budget refuses the reservation the blob goes to disk)
 	verifWTWrite(cas, verifWTNames[streamed], size, streamed, false)
-	verif.Cover("size-mismatch-in-memory", size != uint64(streamed) && cas.memCache.Get(verifWTNames[streamed]) != nil)
+	// regression check of the repaired defect F2: a blob whose length differs
+	// from the reserved size must not be admitted to the memory cache
+	verif.Cover("size-mismatch", size != uint64(streamed))
+	verif.Assert("mismatching-blob-not-in-memory", verif.Implies(size != uint64(streamed), cas.memCache.Get(verifWTNames[streamed]) == nil))
 	verifWTBalance(cas, maxSize)
 	cas.drainNext()
 	verifWTBalance(cas, maxSize)
